@@ -1032,7 +1032,7 @@ def run(ck):
   # (e) library components
   for k in range(len(STDLIB)): todo.append(gen_stdlib(k) + ('stdlib',))
   # (a) rtlgen
-  for _ in range(100 if quick else 800):
+  for _ in range(100 if quick else 400):
     r = rng.random()
     d = rtlgen.generate_slices(rng) if r < 0.25 else rtlgen.generate(rng, max_blocks=8, structs=(rng.random() < 0.7))
     fam = 'rtlgen'
@@ -1045,12 +1045,12 @@ def run(ck):
       if n: fam = 'rtlgen+RDWR'
     todo.append((src, d.cls_name(''), fam))
   # (b) c08_gen legal designs
-  for _ in range(50 if quick else 400):
+  for _ in range(50 if quick else 200):
     d = c08_gen.gen_legal(rng, d1=(rng.random() < 0.3))
     var = d.variant_orders(rng, identity=True)
     todo.append((d.source([var]), d.cls_name(0, 0), 'c08gen'))
   # (c) shapes
-  for _ in range(250 if quick else 2500):
+  for _ in range(250 if quick else 1000):
     todo.append(gen_shape(rng) + ('shape',))
   lines, metas, rejected = [], [], {}
   for (src, cls, fam) in todo:
@@ -1063,11 +1063,11 @@ def run(ck):
     ex, line = r
     lines.append(line); metas.append((ex, {'gendag': True, 'family': fam, 'top': cls, 'source': src}, fam))
   # (f) several components constraining one signal
-  for _ in range(25 if quick else 300):
+  for _ in range(25 if quick else 120):
     src, cls, spec = gen_hier(rng)
     check_hier(ck, src, cls, spec, lines, metas)
   # (g) constants tied to parts of signals
-  ncn, cn_rej = (32 if quick else 400), 0
+  ncn, cn_rej = (32 if quick else 160), 0
   for _ in range(ncn):
     src, cls, spec = gen_const(rng)
     modes = {flow: [rng.choice(CN_MODES)] for flow in HIER_FLOWS}
